@@ -14,7 +14,8 @@ IsNone(e) == CASE e.op = "to_image" -> ToImageRef(e.box, e.pat, e.h, e.w, e.arg)
 Expected(e) ==
   CASE e.op = "to_image" -> Rows(ToImageRef(e.box, e.pat, e.h, e.w, e.arg), e.h, e.w)
     [] e.op = "cutout" -> Rows(CutoutRef(e.box, e.h, e.w), NY(e.box), NX(e.box))
-    [] e.op = "multiply" -> Rows(MultiplyRef(e.box, e.pat, e.h, e.w), NY(e.box), NX(e.box))
+    [] e.op = "multiply" -> LET r == Rows(MultiplyRef(e.box, e.pat, e.h, e.w), NY(e.box), NX(e.box))       \* recorded with fill value 0: "zf" and "z" are both 0
+                            IN [j \in 1..Len(r) |-> [k \in 1..Len(r[j]) |-> IF r[j][k] = <<"zf">> THEN <<"z">> ELSE r[j][k]]]
     [] e.op = "get_values" -> ValuesRef(e.box, e.pat, e.h, e.w, e.arg)
 Verdict(e) == IF e.isnone # IsNone(e) THEN e.op \o ":none_iff_no_overlap"
               ELSE IF e.isnone \/ e.res = Expected(e) THEN "ok" ELSE e.op \o ":differs_from_placement"
